@@ -73,6 +73,11 @@ func (e obsErr) key() string { return fmt.Sprintf("%s @%v", e.Msg, e.Locs) }
 type realRun struct {
 	Panic string
 	Errs  []obsErr
+	// CostRoute: this run attached the cost rule (see costroute.go); Adequate: every variable the
+	// chosen operation requires was supplied, so the rule has no request-level reason to complain.
+	CostRoute bool   `json:",omitempty"`
+	Adequate  bool   `json:",omitempty"`
+	Request   string `json:",omitempty"`
 }
 
 func (r realRun) accepted() bool { return r.Panic == "" && len(r.Errs) == 0 }
@@ -86,13 +91,13 @@ func (r realRun) canon() []string {
 	return out
 }
 
-func validateOnce(doc *ast.Document, s *schema.Schema, fs schema.FeatureSet) (out realRun) {
+func validateOnce(doc *ast.Document, s *schema.Schema, fs schema.FeatureSet, rules ...validator.Rule) (out realRun) {
 	defer func() {
 		if p := recover(); p != nil {
 			out = realRun{Panic: fmt.Sprint(p)}
 		}
 	}()
-	for _, e := range validator.ValidateDocument(doc, s, fs) {
+	for _, e := range validator.ValidateDocument(doc, s, fs, rules...) {
 		oe := obsErr{Msg: e.Message}
 		for _, l := range e.Locations {
 			oe.Locs = append(oe.Locs, [2]int{l.Line, l.Column})
@@ -400,14 +405,20 @@ func (h *harness) leanLines(c *Case, b *built, doc *ast.Document) []string {
 
 // judge applies the oracles and the correspondence to one case whose real runs and Lean reply are known.
 func judge(c *Case, ev *evaluated) {
-	first := ev.runs[0]
-	for i, r := range ev.runs {
+	all := ev.runs
+	var cost *realRun
+	if n := len(all); n > 0 && all[n-1].CostRoute {
+		cost = &all[n-1]
+		all = all[:n-1]
+	}
+	first := all[0]
+	for i, r := range all {
 		if r.Panic != "" {
 			ev.fail = &failure{"crash", fmt.Sprintf("validator panicked (run %d): %s", i, r.Panic), "crash:" + r.Panic}
 			return
 		}
 	}
-	for i, r := range ev.runs[1:] {
+	for i, r := range all[1:] {
 		if r.stable() != first.stable() {
 			which := "repeat"
 			if i+1 >= 3 {
@@ -420,6 +431,20 @@ func judge(c *Case, ev *evaluated) {
 	if !first.accepted() {
 		if msg := locationsInside(c.Query, first.Errs); msg != "" {
 			ev.fail = &failure{"property", "rejected, but " + msg, "location"}
+			return
+		}
+	}
+	if cost != nil {
+		const route = "the route that attaches the cost rule (ParseAndValidate with Request.ValidateCost and no limit, as the apifu HTTP and WebSocket handlers do; "
+		switch {
+		case cost.Panic != "":
+			ev.fail = &failure{"crash", "validator panicked on " + route + cost.Request + "): " + cost.Panic, "cost-route"}
+			return
+		case first.accepted() && !cost.accepted() && cost.Adequate:
+			ev.fail = &failure{"property", fmt.Sprintf("document is accepted by the validation rules alone but rejected on %s%s): %v", route, cost.Request, cost.canon()), "cost-route"}
+			return
+		case !first.accepted() && cost.stable() != first.stable():
+			ev.fail = &failure{"property", fmt.Sprintf("%s%s) gives %q, the validation rules alone give %q", route, cost.Request, cost.stable(), first.stable()), "cost-route"}
 			return
 		}
 	}
@@ -439,7 +464,7 @@ func judge(c *Case, ev *evaluated) {
 			ev.fail = &failure{"correspondence", "the model ran out of fuel (it predicts unbounded recursion) but the implementation answered " + first.stable(), "corr-fuel"}
 			return
 		}
-		for i, r := range ev.runs {
+		for i, r := range all {
 			if msg := matchSlots(r.Errs, ev.lean.Slots); msg != "" {
 				ev.fail = &failure{"correspondence", fmt.Sprintf("model and implementation disagree (run %d): %s; implementation %v; model %s", i, msg, r.canon(), ev.lean.Raw), "corr"}
 				return
@@ -517,6 +542,8 @@ func validateAll(c *Case, a, b *built, doc *ast.Document) []realRun {
 	for i := 0; i < 2; i++ {
 		runs = append(runs, validateOnce(doc2, b.s, fs))
 	}
+	// sixth run: the route apifu's handlers take (the cost rule attached, no limit)
+	runs = append(runs, validateCostRoute(c, a, fs))
 	return runs
 }
 
@@ -568,7 +595,7 @@ func validateInChild(c *Case) ([]realRun, bool) {
 		}
 	}
 	var runs []realRun
-	if err == nil && json.Unmarshal(out.Bytes(), &runs) == nil && len(runs) == 5 {
+	if err == nil && json.Unmarshal(out.Bytes(), &runs) == nil && len(runs) >= 5 {
 		return runs, true
 	}
 	if cmd.ProcessState == nil {
@@ -797,6 +824,12 @@ func (h *harness) oblige(c *Case, ev *evaluated) {
 	}
 	run.Oblige("oracle: no panic; >=1 located error on rejection, every location inside the text", "oracle", 1, !(fk == "crash" || (ev.fail != nil && ev.fail.cls == "location")), failWhat(ev))
 	run.Oblige("oracle: verdict identical over 3 runs and 2 runs on the schema rebuilt in shuffled order", "oracle", 1, !(ev.fail != nil && ev.fail.cls == "nondeterministic"), failWhat(ev))
+	if n := len(ev.runs); ev.runs[n-1].CostRoute {
+		run.Oblige("oracle: with the cost rule attached (no limit, the variables the operation requires supplied, defaults left to apply) validation gives the verdict and the errors of the validation rules alone", "oracle", 1, !(ev.fail != nil && ev.fail.cls == "cost-route"), failWhat(ev))
+		if ev.runs[n-1].Adequate {
+			run.Count("cost-route:variables-adequate")
+		}
+	}
 	if ev.lean != nil {
 		bad := ev.fail != nil && (strings.HasPrefix(ev.fail.cls, "valid-rejected") || strings.HasPrefix(ev.fail.cls, "violating-accepted"))
 		if ev.lean.SpecValid {
